@@ -107,7 +107,17 @@ let res_locs r = match r with Ok x -> "ok " ^ show_locs x | Err _ -> "err"
    and per entry: a switch of the work peer (switchWorkLeaderToPeer = switch_work, or plain set_work), reload flags,
    an invalidation (invalidate_r with the reason found). Everything else is unexplained = a mismatch. *)
 let sender_prims : (string, int) Hashtbl.t = Hashtbl.create 16
-let explain (c : cache) (res : string) (target : cache) : (cache * string list) option =
+let rec explain (c : cache) (res : string) (target : cache) : (cache * string list) option =
+  (* a send failure on an earlier attempt (store fail-epoch bump) may precede the final epoch-not-match answer: try that order first *)
+  let sts = List.sort_uniq compare (List.map fst c.c_sepochs @ List.map fst target.c_sepochs) in
+  let mono = List.for_all (fun st -> ni (store_epoch target.c_sepochs st) >= ni (store_epoch c.c_sepochs st)) sts in
+  let differ = List.exists (fun st -> store_epoch target.c_sepochs st <> store_epoch c.c_sepochs st) sts in
+  if mono && differ then
+    (match explain { c with c_sepochs = target.c_sepochs } res target with
+     | Some (t, ps) -> Some (t, "store_epoch_bump" :: ps)
+     | None -> explain1 c res target)
+  else explain1 c res target
+and explain1 (c : cache) (res : string) (target : cache) : (cache * string list) option =
   let prims = ref [] in
   let note p = prims := p :: !prims in
   let c0 = match split_on ' ' res with
@@ -157,6 +167,12 @@ let run_op (c : cache) (op : string) (args : string list) (qs : string list arra
   | "locate_end" -> fin (find_region_by_key pd budget fuel t0 c (bytes_of_hex (a 0)) true) res_loc
   | "try" -> ((match try_find c (bytes_of_hex (a 0)) false with Some r -> "ok " ^ show_loc r | None -> "none"), c, 0)
   | "byid" -> fin (locate_by_id pd budget t0 c (nn (int_of_string (a 0)))) res_loc
+  | "byidpd" ->
+      (match load_by_id pd budget t0 (nn (int_of_string (a 0))) with
+       | (Ok r, t1) -> ("ok " ^ show_loc r, c, int_of_nat t1) | (Err _, t1) -> ("err", c, int_of_nat t1))
+  | "bloadfrom" ->
+      fin (batch_load_range pd budget fuel t0 c (bytes_of_hex (a 0)) [] (nat (int_of_string (a 1))))
+        (fun r -> match r with Err _ -> "err" | Ok rs -> "ok " ^ hex_of_bytes (List.nth rs (List.length rs - 1)).r_end)
   | "range" -> fin (locate_key_range pd budget limit128 fuel t0 c (bytes_of_hex (a 0)) (bytes_of_hex (a 1)) []) res_locs
   | "batch" -> fin (batch_locate pd budget limit128 fuel t0 c (parse_ranges (a 1)) (a 0 = "1")) res_locs
   | "group" ->
@@ -297,6 +313,28 @@ let () =
              incr cases;
              let qarr = Array.of_list (List.rev !qs) in
              let (mres, c1, used) =
+               if op = "ubrace" then begin
+                 (* the background reload and OnBucketVersionNotMatch in either order *)
+                 (try
+                    let pdm = (if !txn_mode then codec_pd (make_pd qarr) else make_pd qarr) and budget = nat (Array.length qarr) in
+                    let v = parse_verid (List.nth args 0) and latest = nn (int_of_string (List.nth args 1)) in
+                    let (ver, keys) = (match parse_bk (List.nth args 2) with Some x -> x | None -> (nn 0, [])) in
+                    let (ca, ta) = update_buckets pdm budget O !cache v (nn 0) latest in
+                    let ca = on_bucket_version_not_match ca v ver keys in
+                    let cb0 = on_bucket_version_not_match !cache v ver keys in
+                    let (cb, tb) = update_buckets pdm budget O cb0 v (nn 0) latest in
+                    let impl_dump = ents ^ "\t" ^ regs ^ "\t" ^ lat ^ "\t" ^ ses ^ "\t" ^ tbs in
+                    (* third interleaving: the reload was decided before the version-not-match arrived and is carried out after it *)
+                    let (cc, tc) = if int_of_nat ta > 0 then
+                        (match load_by_id pdm budget O (fst (fst v)) with
+                         | (Ok lr, t1) -> (snd (insert_new cb0 lr), t1)
+                         | (Err _, t1) -> (cb0, t1))
+                      else (cb0, O) in
+                    if show_dump cb = impl_dump && int_of_nat tb = Array.length qarr then ("ok", cb, int_of_nat tb)
+                    else if show_dump cc = impl_dump && int_of_nat tc = Array.length qarr then ("ok", cc, int_of_nat tc)
+                    else ("ok", ca, int_of_nat ta)
+                  with e -> ("model-exception " ^ Printexc.to_string e, !cache, 0))
+               end else
                if op = "send" then begin
                  (try
                     let target = parse_dump ents regs lat ses tbs in
